@@ -28,6 +28,12 @@ func runC17(c *Ctx) {
 	R.Rule("C17.R3", "switch-like options reflect their most recent setting: each boolean/func setter stores its parameter unconditionally; AllowURLSchemes stores the unrestricted entry for every scheme unconditionally; AllowElementsContent deletes unconditionally; RequireSandboxOnIFrame installs a fresh set")
 	R.Rule("C17.R4", "instances are independent: only freshly made maps/slices (or append results on the policy's own field) are stored into a policy's table fields; shipped constructors return a new NewPolicy(); no package-level cache (C13.R3)")
 	R.Rule("C17.R5", "rules accumulate at sanitise time too: where the rules of several matching element patterns are merged into the per-call table, each update is m[k] = append(m[k], rules...); with that, order independence follows from R2 + any-match reads (C07.R1) + order-insensitive map iteration (C13.R4)")
+	R.Rule("C17.R10", "a Policy is never copied by value: no function loads a whole Policy value (a copy shares every table with the original)")
+	noPolicyCopies(c, "C17.R10", "rules added to one policy appear in the other")
+	R.Rule("C17.R9", "builders read only their own tables: an exported builder consults (looks up, ranges over, measures) no rule table other than the ones it updates itself, so what a call registers cannot depend on what other calls registered before")
+	buildersReadOnlyTheirOwnTables(c, "C17.R9")
+	R.Rule("C17.R8", "pattern builders stay in their lane: AllowURLSchemesMatching, AllowElementsMatching and the OnElementsMatching methods update (transitively) only the pattern tables, never an exact-name table")
+	patternBuildersStayInLane(c, "C17.R8", "registering a pattern changes what was registered under an exact name: the policy is no longer the set of rules given to it")
 	R.Rule("C17.R7", "options survive lazy initialisation: an existing Policy is only ever updated field by field — no function stores a whole Policy value through a pointer it did not allocate (a `*p = Policy{…}` in init would reset every option set before)")
 	optionsSurviveInit(c, "C17.R7", "options set before the first rule (on a zero-value Policy) are lost: the policy is no longer the set of calls made on it")
 	R.Rule("C17.R6", "no two keys of a rule table share one mutable entry: every map stored as a table entry is created by a make that is stored by exactly that one update and lies inside every loop containing the update")
